@@ -395,7 +395,20 @@ fn child_processes(rep: &Report, ck: &str, c: &Case, procs: usize) -> CheckResul
 
 pub fn run(ctx: &Ctx, rep: &Report) -> Meta {
     let n = ctx.tier.pick(64, 1000);
-    run_cases(ctx, rep, "histories", ctx.tier.pick(24, 64), 40, || strat(n), |c| check(rep, "histories", c));
+    run_cases(ctx, rep, "histories", ctx.tier.pick(48, 96), 8, || strat(n), |c| check(rep, "histories", c));
+    // large shapes: many blinding scalars drawn inside ONE call (block-wise generators, buffers that wrap)
+    let mut large: Vec<Case> = vec![];
+    let shapes: &[(usize, usize)] = ctx.tier.pick(&[(28, 0), (33, 31), (40, 2), (70, 40), (3, 64)], &[(28, 0), (33, 31), (40, 2), (70, 40), (3, 64), (130, 130), (260, 3), (3, 260), (600, 600)]);
+    for (k, &(u, m)) in shapes.iter().enumerate() {
+        for suite in [SuiteId::Sha256, SuiteId::Shake256] {
+            large.push(Case { suite, seed_a: (ctx.seed as u32).wrapping_add(7 * k as u32 + 1), seed_b: 0, u, m, schedule: vec![false; ctx.tier.pick(4, 12)], threads: 1 + 3 * (k % 2) });
+        }
+    }
+    // every count of hidden / committed messages in a contiguous range, two generations each
+    for u in 0..ctx.tier.pick(72usize, 140usize) {
+        large.push(Case { suite: if u % 2 == 0 { SuiteId::Sha256 } else { SuiteId::Shake256 }, seed_a: (ctx.seed as u32).wrapping_add(1000 + u as u32), seed_b: 0, u, m: (u * 7 + 3) % 73, schedule: vec![false; 2], threads: 1 });
+    }
+    par_items(ctx, rep, "large-shapes", &large, |c| check(rep, "large-shapes", c));
     // identical inputs in fresh processes (per-process seeding defects)
     let procs: Vec<Case> = [SuiteId::Sha256, SuiteId::Shake256]
         .iter()
@@ -404,7 +417,7 @@ pub fn run(ctx: &Ctx, rep: &Report) -> Meta {
         .collect();
     par_items(ctx, rep, "fresh-processes", &procs, |c| child_processes(rep, "fresh-processes", c, ctx.tier.pick(3, 8)));
     Meta {
-        rule: "history = a generated schedule of n generations (n = 64 quick / 1000 thorough) over two input sets (same input repeated most of the time), on 1, 4 or 16 threads released from a barrier, \
+        rule: "history = a generated schedule of n generations (small shapes U in {0,1,3}, M in {0,2}); large shapes with up to 70 / 600 hidden and 64 / 600 committed messages and EVERY count of hidden messages 0..72 / 0..140 with two generations each; (n = 64 quick / 1000 thorough) over two input sets (same input repeated most of the time), on 1, 4 or 16 threads released from a barrier, \
                plus identical inputs in 3 (quick) / 8 (thorough) fresh child processes; each generation = proof_gen + commit + blind_sign + blind_proof_gen + BlindFactor::random + KeyPair::random + generate_random_secret; \
                oracle (witness holder): e~ = e^ - e*c, m~_j = m^_j - m_j*c, s~ = s^ - blind*c are non-zero, >= 2^128, pairwise distinct over the whole pooled history (also vs. challenges, blind factors, random keys), \
                consecutive values differ by >= 2^128 both ways, Abar/Bbar/D/commitments/random secrets pairwise distinct, two-transcript extractor returns neither e nor a hidden message, \
